@@ -241,6 +241,9 @@ def load_known():
     return known, fixed
 
 
+JOB_TIMEOUT = 3000   # seconds per harness job; the quick tier lowers it (a job of that tier takes a minute or two)
+
+
 def run_parallel(jobs, maxpar=14, env=None):
     """jobs: list of (key, argv). Returns {key: (rc, out)}."""
     env = env or GOENV
@@ -252,7 +255,7 @@ def run_parallel(jobs, maxpar=14, env=None):
             running.append((k, subprocess.Popen(argv, stdout=subprocess.PIPE, stderr=subprocess.STDOUT, text=True, env=env)))
         k, p = running.pop(0)
         try:
-            out, _ = p.communicate(timeout=3000)
+            out, _ = p.communicate(timeout=JOB_TIMEOUT)
             res[k] = (p.returncode, out)
         except subprocess.TimeoutExpired:
             p.kill()
@@ -284,6 +287,8 @@ def check(pid, tier, replay=None):
     cfg = PROPS[pid]
     seed = int(os.environ.get("VERIF_SEED", "1"))
     thorough = tier == "thorough"
+    global JOB_TIMEOUT
+    JOB_TIMEOUT = 3000 if thorough else 1200
     os.makedirs(BIN, exist_ok=True)
     os.makedirs(EVIDENCE_DIR, exist_ok=True)
     os.makedirs(os.path.join(VERIF, "replays"), exist_ok=True)
